@@ -1041,6 +1041,7 @@ macro_rules! seq {
             let steps: &[&str] = &[$(stringify!($m)),*];
             let has_adds = steps.len() > 0;
             let mut c = $crate::tables::$ctx::new_p(P, has_adds);
+            kani::cover!(true, "CALLING");
             c.check::<P>();
             $(
                 c.$m($($a),*);
